@@ -16,12 +16,12 @@ from playback.tape_recorder import TapeRecorder
 TARGET = _real_os.path.join(REPO, 'playback', 'studio', 'equalizer.py')
 
 WORKER_ONLY = ('worker_exit', 'worker_abort', 'worker_hang', 'worker_late_answer', 'worker_late_death')
-BEHAVIOURS = ['equal', 'different', 'player_raises', 'extractor_raises', 'comparator_raises', 'comparator_bare_status', 'slow',
+BEHAVIOURS = ['equal', 'different', 'player_raises', 'operation_raises', 'extractor_raises', 'comparator_raises', 'comparator_bare_status', 'slow',
               'worker_exit', 'worker_abort', 'worker_hang', 'worker_late_answer', 'worker_late_death']
 
 ALLOWED = {
     'equal': ['Equal'], 'slow': ['Equal'], 'different': ['Different'],
-    'player_raises': ['EqualizerFailure'], 'extractor_raises': ['EqualizerFailure'], 'comparator_raises': ['EqualizerFailure'],
+    'player_raises': ['EqualizerFailure'], 'operation_raises': ['EqualizerFailure'], 'extractor_raises': ['EqualizerFailure'], 'comparator_raises': ['EqualizerFailure'],
     'comparator_bare_status': ['Fixed'],
     'worker_exit': ['EqualizerFailure'], 'worker_abort': ['EqualizerFailure'], 'worker_hang': ['EqualizerFailure'],
     'worker_late_answer': ['Equal', 'EqualizerFailure'],
@@ -42,6 +42,8 @@ class World(object):
         self.dedicated = True
         self.handled = {}           # pid -> number of replays served
         self.played = []            # (pid, tag)
+        self.hang_ignores_sigterm = False
+        self.unprintable_errors = False
 
     def effective(self, tag):
         b = self.behaviour.get(tag, 'equal')
@@ -91,6 +93,16 @@ def build_operation(recorder, world):
     return OpA
 
 
+class Unprintable(Exception):
+    """An exception whose text cannot be produced (str() raises): reporting it must not take the worker loop down a
+    path that skips its bookkeeping."""
+
+    def __str__(self):
+        raise ValueError('no text for this error')
+
+    __repr__ = __str__
+
+
 def behave(world, tag):
     """Runs inside the playback function, i.e. inside the worker process in dedicated mode."""
     b = world.effective(tag)
@@ -98,9 +110,9 @@ def behave(world, tag):
     pid = world.pid()
     world.handled[pid] = world.handled.get(pid, 0) + 1
     world.played.append((pid, tag))
-    if b == 'player_raises':
-        world.run.fault('player_raises')
-        raise RuntimeError('playback function fails for %s' % tag)
+    if b == 'operation_raises':
+        world.run.fault('operation_raises')
+        raise RuntimeError('replayed operation fails for %s' % tag)
     if b == 'slow':
         sim.sleep(0.3)
     elif b == 'worker_exit':
@@ -112,6 +124,9 @@ def behave(world, tag):
         proc.kill()            # dies like os._exit / a segfault: nothing is flushed
     elif b == 'worker_hang':
         world.run.fault('worker_hang')
+        proc = world.mp.current_proc()
+        if proc is not None and world.hang_ignores_sigterm:
+            proc.ignores_sigterm = True      # the replayed service installed a SIGTERM handler; only SIGKILL ends it
         sim.sleep(1e7)
     elif b == 'worker_late_death':
         # hangs until the parent is about to give up, then dies by itself (between the parent's last liveness poll
@@ -140,7 +155,15 @@ class Player(object):
         Op = self.Op
 
         def playback_function(recording):
-            Op().execute(world.tag_of[recording.id])
+            tag = world.tag_of[recording.id]
+            if world.effective(tag) == 'player_raises':
+                # the playback function itself fails (before the operation runs): play() raises, no Playback exists
+                world.handled[world.pid()] = world.handled.get(world.pid(), 0) + 1
+                world.run.fault('player_raises')
+                if world.unprintable_errors:
+                    raise Unprintable()
+                raise RuntimeError('playback function fails for %s' % tag)
+            Op().execute(tag)
         return self.recorder.play(recording_id, playback_function)
 
     def __sim_fork__(self):
@@ -217,6 +240,8 @@ class Scenario(object):
             else:
                 self.behaviours.append('equal')
         self.late_eps = [tape.choice([0.0, -0.01, 0.01, 0.0005]) for _ in range(self.n)]
+        self.hang_ignores_sigterm = bool(tape.draw(2))
+        self.unprintable_errors = tape.draw(3) == 2
         self.idle_kill_at = tape.draw(self.n)
 
     def describe(self):
@@ -251,6 +276,8 @@ def run_scenario(run, tape, sc):
     world = World(run, tape, sim, mp)
     world.timeout = sc.timeout
     world.dedicated = sc.dedicated
+    world.hang_ignores_sigterm = sc.hang_ignores_sigterm
+    world.unprintable_errors = sc.unprintable_errors
     out.world, out.mp, out.sim = world, mp, sim
     cassette, ids = make_recordings(world, sc.n)
     if sc.duplicates and len(ids) > 2:
